@@ -209,7 +209,7 @@ theorem checkParsed_kinds (p : Parsed) (now : Now) (hp : Inv p) :
       cases hh : p.hour with
       | none => exact Or.inr (Or.inl ⟨pm, rfl, rfl⟩)
       | some n => exact Or.inr (Or.inr ⟨pm, n, rfl, rfl⟩)
-  unfold checkParsed
+  unfold checkParsed checkQuarter checkDayOfYear checkDayOfWeek checkMeridiem checkFinal
   simp only [a1, a2, a3]
   cases hdoy : p.day_of_year with
   | none =>
